@@ -701,16 +701,30 @@ def c11_nontrivial(case, v):
             return len(txt) > 120
         # exercises an optional field that is present, a tagged and an untagged enum
         return ('"type"' in txt) and ('"index"' in txt or '"lat"' in txt) and ('"tag"' in txt or '"jobTag"' in txt or '"latest"' in txt)
+    if k == "init":
+        impl = case.get("impl") or {}
+        tr = impl.get("trace") or {}
+        acts = [a for t in tr.get("tours", []) for a in t.get("acts", [])]
+        # a tour serves a multi-task job or an alternative place, or uses a reload / break
+        return any(a.get("task", 0) > 0 or a.get("place", 0) > 0 or a.get("kind") in ("reload", "break") for a in acts)
     return True
 
 
+def c11_extra_evidence(cases, verdicts):
+    hyp_in = sum(1 for c in cases if c.get("k") == "init" and (verdicts.get(c["id"]) or {}).get("hyp") is True)
+    hyp_out = sum(1 for c in cases if c.get("k") == "init" and (verdicts.get(c["id"]) or {}).get("hyp") is False)
+    return {"init_cases_inside_theorem_hypotheses": hyp_in, "init_cases_outside_hypotheses_model_only": hyp_out}
+
+
 PROP = dict(
-    proof_modules=["VrpProofs.C11"],
-    model_modules=["VrpModel.C11", "VrpModel.Generated.C11Schema", "VrpProofs.C11.Codec", "VrpProofs.C11.Safe", "VrpProofs.C11.WF"],
+    proof_modules=["VrpProofs.C11", "VrpProofs.C11.Init"],
+    model_modules=["VrpModel.C11", "VrpModel.C11Init", "VrpModel.Generated.C11Schema", "VrpProofs.C11.Codec",
+                   "VrpProofs.C11.Safe", "VrpProofs.C11.WF"],
     drv="drv_c11", bin="c11",
     translators=[translator_T1],
     compare=c11_compare,
     nontrivial=c11_nontrivial,
+    extra_evidence=c11_extra_evidence,
     rule="rt/fbits/foreign: the document has a present optional field, an internally tagged enum and an untagged enum "
          "(matrix: non-empty); distinct = SHA-256 of the canonical case input",
     modelled="serde derive + serde_json for every struct/enum of format/problem/model.rs, format/solution/model.rs and "
